@@ -41,5 +41,7 @@ Frames == \A o \in BOOLEAN, r \in BOOLEAN :
              /\ \A f \in FramesAll : /\ FrameCarried(o, r, <<f>>) /\ NoBareFrame(o, r, <<f>>) /\ IsFrameToks(FrameToks(f))
                                      /\ (FrameLegal(f) => WindowCall(o, r, <<f>>).st = "ok")
                                      /\ WindowCall(o, r, <<f, f>>).st # "ok"
+PathNames == {<<"t">>, <<"s", "t">>, <<"d", "s", "t">>, <<"d.x", "s", "t">>, <<"s", "s">>}
+Paths == \A r \in {"kw_obj", "kw_str", "kw_list", "kw_tuple", "attr", "make", "make_al"}, ns \in PathNames, al \in {"", "al"} : PathOK(r, ns, al)
 Arity == \A d \in {"none", "0", "1", "2", "3"}, g \in {"0", "1", "2", "3", "4"} : ArityExact(d, g)
 =============================================================================
